@@ -3,3 +3,6 @@ import KernModel.Cat
 import KernModel.Spec.CatTree
 import KernModel.Pitch
 import KernModel.Spec.Interval
+import KernModel.Gkern
+import KernModel.Token
+import KernModel.SpineImporters
